@@ -208,12 +208,12 @@ Section Distinct.
   Qed.
 
   Lemma local_go_R flv slv l : forall es ns ls ats g a b,
-    length ns = length ls -> length ns = length ats -> (length es <= length ns)%nat ->
+    length ns = length ls -> length ns = length ats ->
     Forall PeD es -> forallb frag_exp es = true -> chain W a (flat_map LS.m_exp es) b ->
     IL a b (rlocs (fst (tr_stat (SLocal ns ls ats es l) flv slv g))).
   Proof.
-    intros es ns ls ats g a b Hl Ha Hle Hall Hf Hch.
-    rewrite tr_stat_local, local_vis_thread, (local_visited_all es ns ls ats Hl Ha Hle).
+    intros es ns ls ats g a b Hl Ha Hall Hf Hch.
+    rewrite tr_stat_local.
     destruct (exps_D es a b Hall Hf Hch) as [_ Q]. specialize (Q flv g).
     destruct (thread (fun x g0 => tr_exp x None flv g0) es g) as [a1 g1]. cbn [fst] in *.
     rewrite rlocs_app, rlocs_local_add_acts, app_nil_r. exact Q.
@@ -419,7 +419,7 @@ Section Distinct.
                | H : (_ <=? _)%nat = true |- _ => apply Nat.leb_le in H
                end.
         assert (La1 : a <= c1) by lia.
-        exact (IL_widen _ _ _ _ _ (local_go_R flv slv l es ns ls ats g c1 c2 ltac:(assumption) ltac:(assumption) ltac:(assumption)
+        exact (IL_widen _ _ _ _ _ (local_go_R flv slv l es ns ls ats g c1 c2 ltac:(assumption) ltac:(assumption)
                                               IHe ltac:(assumption) C3) La1 Lc2).
     - (* SLocalFunc *) intros n nl f l [_ IHf] Hf a b Hch. cbn [frag_stat] in Hf. bs Hf.
       destruct f; try discriminate. cbn [PDF LS.m_stat] in *.
